@@ -68,6 +68,67 @@ def _res(x):
         return ["obj", id(x)]
 
 
+def _leaves_of_expr(expr):
+    """navigation / parent steps of the generated AST in written order: what the source text says"""
+    out = []
+
+    def pe(e):
+        if e["k"] == "nav":
+            out.append(["Nav", e["name"], bool(e["consume"]) and e["fixed"] is None, e["fixed"][1] if e["fixed"] is not None else None])
+        elif e["k"] == "parent":
+            out.append(["Parent", e["type"]])
+        else:
+            for p in e["paths"]:
+                for x in p["elems"]:
+                    pe(x)
+
+    for p in expr["paths"]:
+        for x in p["elems"]:
+            pe(x)
+    return out
+
+
+def _leaves_of_dump(d):
+    out = []
+
+    def go(x):
+        if isinstance(x, list):
+            if x and x[0] == "Nav":
+                out.append(["Nav", x[1], x[2], x[3]])
+                return
+            if x and x[0] == "Parent":
+                out.append(["Parent", x[1]])
+                return
+            for y in x:
+                go(y)
+
+    go(d)
+    return out
+
+
+def _without_blanks_in_fixed_names(expr):
+    """a copy of expr whose fixed names have their blanks removed, or None when there is nothing to remove"""
+    import copy
+
+    e2 = copy.deepcopy(expr)
+    changed = [False]
+
+    def pe(e):
+        if e["k"] == "nav":
+            if e["fixed"] is not None and " " in e["fixed"][1]:
+                e["fixed"] = [e["fixed"][0], e["fixed"][1].replace(" ", "")]
+                changed[0] = True
+        elif e["k"] == "br":
+            for p in e["paths"]:
+                for x in p["elems"]:
+                    pe(x)
+
+    for p in e2["paths"]:
+        for x in p["elems"]:
+            pe(x)
+    return e2 if changed[0] else None
+
+
 def strategy(tier):
     ex = st.one_of(G.exprs(depth=0), G.exprs(depth=1), G.exprs(depth=1), G.exprs(depth=1), G.exprs(depth=1), G.exprs(depth=2))
     return st.fixed_dictionaries({"expr": ex, "sp": st.sampled_from(["", "", " "])})
@@ -80,6 +141,15 @@ def evaluate(case):
     out = Outcome()
     expr = case["expr"]
     src = G.to_text(expr, case["sp"])
+    # history independence: a different expression that differs only by blanks inside quoted fixed names is parsed
+    # first; the tree of `src` must still carry its own names (checked against the generated AST below)
+    twin = _without_blanks_in_fixed_names(expr)
+    if twin is not None:
+        out.cls("twin_parsed_first")
+        try:
+            rrel.parse(G.to_text(twin, case["sp"]))
+        except NoMatch:
+            pass
     try:
         t1 = rrel.parse(src)
     except NoMatch as e:
@@ -103,6 +173,10 @@ def evaluate(case):
     s = str(t1)
     out.sample["printed"] = s
     d1 = G.dump_tree(t1)
+    want_leaves, got_leaves = _leaves_of_expr(expr), _leaves_of_dump(d1)
+    if want_leaves != got_leaves:
+        return out.add("parsed_tree_differs_from_source/" + ("fixed_name" if has_fixed else "other"),
+                       f"src={src!r}: names in the tree {got_leaves}, written {want_leaves}")
     try:
         t2 = rrel.parse(s)
     except NoMatch as e:
